@@ -379,7 +379,7 @@ def tasks(tier):
                 N = 2 if R * H <= 6 else 1
                 ts.append(task(PROP, M_, "OptimalCompletionH", R=R, H=H, N=N, V=V, eos=eos, include_eos=ie, batch_first=bf, exclude_last=xl,
                                costs=uneq if (R + H) % 2 else [1.0, 1.0, 1.0], time_limit=1500))
-        for (R, H), (eos, ie, xl) in itertools.product(((4, 3), (3, 4), (4, 4)), ((0, True, False), (0, False, True), (None, False, False))):
+        for (R, H), (eos, ie, xl) in itertools.product(((4, 3), (3, 4)), ((0, True, False), (0, False, True), (None, False, False))):
             ts.append(task(PROP, M_, "OptimalCompletionH", R=R, H=H, N=1, V=4, eos=eos, include_eos=ie, batch_first=False, exclude_last=xl, costs=uneq, time_limit=1500))
         for ie in (False, True):
             ts.append(task(PROP, M_, "OptimalCompletionH", R=3, H=3, N=1, V=4, eos=0, include_eos=ie, batch_first=False, exclude_last=False, costs="sym", cmax=16))
